@@ -16,6 +16,7 @@ let () =
   | _ :: "container" :: _ -> R_container.run ()
   | _ :: "move" :: _ -> R_move.run ()
   | _ :: "ordered" :: "small" :: _ -> R_ordered.run_small ()
+  | _ :: "ordered" :: "unord" :: _ -> R_ordered.run_unord ()
   | _ :: "ordered" :: _ -> R_ordered.run_ord ()
   | _ :: "compose" :: "fb" :: _ -> R_compose.run_fb ()
   | _ :: "compose" :: "fbl" :: _ -> R_compose.run_fbl ()
